@@ -269,3 +269,12 @@ package fastaio
 //@   loop 1:
 //@     invariant counting[136] == count(k, 0, range_i, EFR.Seq[k] == 136) && counting[24] == count(k, 0, range_i, EFR.Seq[k] == 24) && counting[72] == count(k, 0, range_i, EFR.Seq[k] == 72) && counting[40] == count(k, 0, range_i, EFR.Seq[k] == 40)
 //@   ensures EFR.Count_A == count(k, 0, len(EFR.Seq), EFR.Seq[k] == 136) && EFR.Count_T == count(k, 0, len(EFR.Seq), EFR.Seq[k] == 24) && EFR.Count_G == count(k, 0, len(EFR.Seq), EFR.Seq[k] == 72) && EFR.Count_C == count(k, 0, len(EFR.Seq), EFR.Seq[k] == 40)
+
+//@ # C02/C11 helpers used by the entry points: decoding an encoded record gives one symbol per code (for the codes the
+//@ # readers produce), keeping ID, description and index; degapping removes exactly the '-' characters, in order.
+//@ func EncodedFastaRecord.Decode
+//@   requires forall(j, 0, len(EFR.Seq), isCode(EFR.Seq[j]))
+//@   loop 1:
+//@     invariant len(seq) == range_i && forall(j, 0, range_i, seq[j] == DA[EFR.Seq[j]][0])
+//@   ensures [fields] result.ID == EFR.ID && result.Description == EFR.Description && result.Idx == EFR.Idx
+//@   ensures [len] len(result.Seq) == len(EFR.Seq)
